@@ -26,6 +26,9 @@ pub struct Cw1Snap {
     pub allow: Vec<(Vec<Coin>, Expiration)>,
     /// per universe address: (delegate, redelegate, undelegate, withdraw)
     pub perms: Vec<(bool, bool, bool, bool)>,
+    /// spenders that AllAllowances / AllPermissions list (None: listing failed or too long to page in a frame)
+    pub listed_allow: Option<Vec<String>>,
+    pub listed_perms: Option<Vec<String>>,
     pub ok: bool,
 }
 
@@ -270,8 +273,32 @@ pub fn snap_cw1(inner: &dyn Contract<Empty>, deps: Deps, env: &Env, universe: &[
             let pe = pe.unwrap_or_default();
             s.perms.push((pe.delegate, pe.redelegate, pe.undelegate, pe.withdraw));
         }
+        s.listed_allow = page_keys(&|cur| {
+            inner_query::<cw1_subkeys::msg::AllAllowancesResponse>(inner, deps, env, &json!({"all_allowances":{"start_after":cur,"limit":30}}))
+                .map(|r| r.allowances.into_iter().map(|a| a.spender).collect())
+        });
+        s.listed_perms = page_keys(&|cur| {
+            inner_query::<cw1_subkeys::msg::AllPermissionsResponse>(inner, deps, env, &json!({"all_permissions":{"start_after":cur,"limit":30}}))
+                .map(|r| r.permissions.into_iter().map(|a| a.spender).collect())
+        });
     }
     Snap::Cw1(Box::new(s))
+}
+
+/// all keys of a `start_after` / `limit: 30` listing; None if a page fails or there are more than 8 pages
+pub fn page_keys(page: &dyn Fn(Option<String>) -> Option<Vec<String>>) -> Option<Vec<String>> {
+    let mut all: Vec<String> = vec![];
+    let mut cur: Option<String> = None;
+    for _ in 0..8 {
+        let p = page(cur.clone())?;
+        let n = p.len();
+        cur = p.last().cloned();
+        all.extend(p);
+        if n < 30 {
+            return Some(all);
+        }
+    }
+    None
 }
 
 pub fn snap_ics(inner: &dyn Contract<Empty>, deps: Deps, env: &Env) -> Snap {
